@@ -204,6 +204,12 @@ class Program:
                 self.classes[c.name] = c
         self._consulted = set()
         self._scopes = {}
+        # helpers that did not exist when the rules were written are inlined away (rkverif/inline.py)
+        try:
+            from .inline import inline_new_helpers
+            self.inlining = inline_new_helpers(self)
+        except RecursionError:
+            self.inlining = {"enabled": False, "error": "recursion"}
 
     # -- lookup -------------------------------------------------------------
     def module(self, short):
